@@ -1,0 +1,408 @@
+//go:build verif
+
+// Contracts for package bkl (comment-only; read by /verif/bin/bklverif, invisible to the compiler without -tags verif).
+// Syntax: DESIGN.md §2.3. Clause bodies are SMT-LIB terms over parameter/result/local names and /verif/spec.
+package bkl
+
+// ------------------------------------------------------------------------------------------------- util.go
+
+//@ func popMapValue(m, k) (found, val, rest)
+//@   ensures (= found (present (mapOf m) k))
+//@   ensures (=> found (and (= val (select (mapOf m) k)) (= rest (VMap (minus (mapOf m) k)))))
+//@   ensures (=> (not found) (and (= val VNil) (= rest m)))
+//
+//@ func toBool(a) (v, ok)
+//@   ensures (= ok ((_ is VBool) a))
+//@   ensures (=> ok (= v (bv a)))
+//@   ensures (=> (not ok) (not v))
+//
+//@ func getMapBoolValue(m, k) (v, ok)
+//@   ensures (= ok ((_ is VBool) (select (mapOf m) k)))
+//@   ensures (=> ok (= v (bv (select (mapOf m) k))))
+//@   ensures (=> (not ok) (not v))
+//
+//@ func hasMapBoolValue(m, k, v) (res)
+//@   ensures (= res (= (select (mapOf m) k) (VBool v)))
+//
+//@ func popMapBoolValue(m, k, v) (found, rest)
+//@   ensures (= found (= (select (mapOf m) k) (VBool v)))
+//@   ensures (=> found (= rest (VMap (minus (mapOf m) k))))
+//@   ensures (=> (not found) (= rest m))
+//
+//@ func toString(a) (res)
+//@   ensures (= res (ite ((_ is VStr) a) (sv a) ""))
+//
+//@ func popListString(l, v) (found, res)
+//@   uses appNil, snocApp
+//@   ensures (= found (memStr (ls l) v))
+//@   ensures (= res (VList (removeStr (ls l) v)))
+//@   call filterList#1
+//@     invariant ((_ is VList) ret)
+//@     invariant (= (app (ls ret) (removeStr rest v)) (removeStr (ls l) v))
+//@     invariant (= (or found (memStr rest v)) (memStr (ls l) v))
+//
+//@ func hasListMapBoolValue(l, k, v) (res)
+//@   ensures (= res (anyBoolKey (ls l) k v))
+//@   loop 1
+//@     invariant (= (anyBoolKey rest k v) (anyBoolKey (ls l) k v))
+//
+//@ func popListMapBoolValue(l, k, v) (found, res, err)
+//@   uses appNil, snocApp, noMarkerNoExtra
+//@   ensures (= found (and (anyBoolKey (ls l) k v) (not (isErr err))))
+//@   ensures (= (isErr err) (markerExtra (ls l) k v))
+//@   ensures (=> (isErr err) (= err ErrExtraKeys))
+//@   ensures (=> (not (isErr err)) (= res (VList (dropMarkers (ls l) k v))))
+//@   call filterList#1
+//@     invariant ((_ is VList) ret)
+//@     invariant (= (markerExtra (ls l@pre) k v) (markerExtra rest k v))
+//@     invariant (= (app (ls ret) (dropMarkers rest k v)) (dropMarkers (ls l@pre) k v))
+//
+//@ func deepClone(v) (res, err) trusted
+//@   ensures (not (isErr err))
+//@   ensures (= res v)
+
+// ------------------------------------------------------------------------------------------------- match.go
+
+//@ func match(obj, pat) (res)
+//@   ensures (= res (matchS obj pat))                                              [C01] [C02] [C10]
+//@   decreases (rank pat) 2
+//
+//@ func matchMap(obj, pat) (res)
+//@   requires ((_ is VMap) pat)
+//@   ensures (= res (matchS obj pat))                                              [C01] [C10]
+//@   decreases (rank pat) (ite (= (select (mc pat) "$invert") (VBool true)) 1 0)
+//@   loop 1
+//@     invariant (forall ((j String)) (=> (select visited j) (and (not (= j "$merge")) (not (= j "$replace")) (not (= j "$encode")))))
+//@   loop 2
+//@     invariant (forall ((j String)) (=> (select visited j) (matchS (orNil (select (mc objMap) j)) (select (mc pat) j))))
+//
+//@ func matchList(obj, pat) (res)
+//@   ensures (= res (and ((_ is VList) obj) (allMatchL (ls obj) (ls pat))))          [C01]
+//@   decreases (rank pat) 1
+//@   loop 1
+//@     invariant (= (allMatchL (ls objList) rest) (allMatchL (ls objList) (ls pat)))
+//
+//@ func matchListSingle(obj, pat) (res)
+//@   ensures (= res (anyMatchL (ls obj) pat))                                      [C01]
+//@   decreases (rank pat) 3
+//@   loop 1
+//@     invariant (= (anyMatchL rest pat) (anyMatchL (ls obj) pat))
+
+// ------------------------------------------------------------------------------------------------- merge.go
+
+//@ func merge(dst, src) (res, err)
+//@   consumes dst, src
+//@   ensures (= (isErr err) (mergeErr dst src))                                    [C01] [C06]
+//@   ensures (=> (not (isErr err)) (= res (mergeF dst src)))                       [C01] [C06]
+//@   decreases (+ (rank dst) (rank src)) 3
+//
+//@ func mergeMap(dst, src) (res, err)
+//@   consumes dst, src
+//@   requires ((_ is VMap) dst)
+//@   ensures (= (isErr err) (mergeErr dst src))                                    [C01]
+//@   ensures (=> (not (isErr err)) (= res (mergeF dst src)))                       [C01]
+//@   decreases (+ (rank dst) (rank src)) 2
+//
+//@ func mergeMapMap(dst, src) (res, err)
+//@   consumes dst, src
+//@   requires ((_ is VMap) dst) ((_ is VMap) src)
+//@   ensures (= (isErr err) (mergeErr dst src))                                    [C01]
+//@   ensures (=> (not (isErr err)) (= res (mergeF dst src)))                       [C01]
+//@   decreases (+ (rank dst) (rank src)) 1
+//@   loop 1
+//@     invariant ((_ is VMap) dst)
+//@     invariant (forall ((j String)) (=> (select visited j)
+//@                  (and (not (entErr (select (mc dst@pre) j) (select (mc src) j)))
+//@                       (entRel (select (mc dst@pre) j) (select (mc src) j) (select (mc dst) j)))))
+//@     invariant (forall ((j String)) (=> (not (select visited j)) (= (select (mc dst) j) (select (mc dst@pre) j))))
+//
+//@ func mergeList(dst, src) (res, err)
+//@   consumes dst, src
+//@   ensures (= (isErr err) (mergeErr dst src))                                    [C01]
+//@   ensures (=> (not (isErr err)) (= res (mergeF dst src)))                       [C01]
+//@   decreases (+ (rank dst) (rank src)) 2
+//
+//@ func mergeListList(dst, src) (res, err)
+//@   consumes dst, src
+//@   uses noMarkerNoExtra, noStrNoRemove
+//@   ensures (= (isErr err) (llErr (ls dst) (ls src)))                             [C01] [C07]
+//@   ensures (=> (not (isErr err)) (= res (VList (llF (ls dst) (ls src)))))        [C01] [C07]
+//@   decreases (+ (rank dst) (rank src)) 1
+//@   loop 1
+//@     invariant ((_ is VList) dst)
+//@     invariant (= (fold (ls dst) rest) (fold (ls dst@loop) (ls src)))
+//@     invariant (= (foldErr (ls dst) rest) (foldErr (ls dst@loop) (ls src)))
+//
+//@ func mergeListDelete(obj, del) (res, err)
+//@   consumes obj
+//@   uses appNil, snocApp
+//@   ensures (= (isErr err) (not (anyMatchL (ls obj) del)))                        [C01]
+//@   ensures (=> (not (isErr err)) (= res (VList (filterNot (ls obj) del))))       [C01]
+//@   decreases (+ (rank obj) (rank del)) 0
+//@   call filterList#1
+//@     invariant ((_ is VList) ret)
+//@     invariant (= (app (ls ret) (filterNot rest del)) (filterNot (ls l) del))
+//@     invariant (= (or deleted (anyMatchL rest del)) (anyMatchL (ls l) del))
+//
+//@ func mergeListMatch(obj, m, v) (res, err)
+//@   consumes obj, v
+//@   uses appNil, snocApp
+//@   requires ((_ is VMap) v)
+//@   ensures (= (isErr err)
+//@              (or (and (present (mc v) "$value") (not (onlyKey (mc v) "$value")))
+//@                  (not (anyMatchL (ls obj) m))
+//@                  (mapMatchErr (ls obj) m (ite (present (mc v) "$value") (select (mc v) "$value") v))))   [C01]
+//@   ensures (=> (not (isErr err))
+//@              (= res (VList (mapMatch (ls obj) m (ite (present (mc v) "$value") (select (mc v) "$value") v)))))  [C01]
+//@   decreases (+ (rank obj) (rank v)) 0
+//@   call filterList#1
+//@     invariant ((_ is VList) ret)
+//@     invariant (= (app (ls ret) (mapMatch rest m val)) (mapMatch (ls l) m val))
+//@     invariant (= (mapMatchErr rest m val) (mapMatchErr (ls l) m val))
+//@     invariant (= (or found (anyMatchL rest m)) (anyMatchL (ls l) m))
+
+// ------------------------------------------------------------------------------------------------- validate.go
+
+//@ func validate(obj) (err)
+//@   ensures (= (isErr err) (not (noMarker obj)))                                  [C07] [C17]
+//@   ensures (=> (isErr err) (or (= err ErrRequiredField) (= err ErrInvalidDirective)))
+//@   decreases (rank obj) 1
+//
+//@ func validateMap(obj) (err)
+//@   requires ((_ is VMap) obj)
+//@   ensures (= (isErr err) (not (noMarker obj)))                                  [C07]
+//@   ensures (=> (isErr err) (or (= err ErrRequiredField) (= err ErrInvalidDirective)))
+//@   decreases (rank obj) 0
+//@   loop 1
+//@     invariant (forall ((j String)) (=> (select visited j) (and (not (marker j)) (noMarker (select (mc obj) j)))))
+//
+//@ func validateList(obj) (err)
+//@   ensures (= (isErr err) (not (noMarker obj)))                                  [C07]
+//@   ensures (=> (isErr err) (or (= err ErrRequiredField) (= err ErrInvalidDirective)))
+//@   decreases (rank obj) 0
+//@   loop 1
+//@     invariant (= (noMarkerL rest) (noMarkerL (ls obj)))
+//
+//@ func validateString(obj) (err)
+//@   ensures (= (isErr err) (marker obj))                                          [C07] [C17]
+//@   ensures (=> (= obj "$required") (= err ErrRequiredField))                     [C07] [C17]
+//@   ensures (=> (isErr err) (or (= err ErrRequiredField) (= err ErrInvalidDirective)))
+
+// ------------------------------------------------------------------------------------------------- util.go (iteration helpers)
+
+//@ func filterMap(m, filter) (res, err)
+//@   loop 2
+//@     invariant ((_ is VMap) ret)
+//@     invariant (forall ((j String)) (= (select (mc ret) j) (ite (select visited j) (select (mapOf m2) j) (select (mc ret@loop) j))))
+
+// ------------------------------------------------------------------------------------------------- output.go
+
+//@ func findOutputs(obj) (res, outs, err)
+//@   ensures (= (isErr err) (outBad obj true))
+//@   ensures (=> (not (isErr err)) (= res (stripF obj)))                           [C11] [C06]
+//@   ensures (=> (not (isErr err)) (= outs (VList (selF obj))))                    [C11] [C06]
+//@   decreases (rank obj) 1
+//
+//@ func findOutputsMap(obj) (res, outs, err)
+//@   uses appNil, appAssoc
+//@   requires ((_ is VMap) obj)
+//@   ensures (= (isErr err) (outBad obj true))
+//@   ensures (=> (not (isErr err)) (= res (stripF obj)))                           [C11]
+//@   ensures (=> (not (isErr err)) (= outs (VList (selF obj))))                    [C11]
+//@   decreases (rank obj) 0
+//@   loop 1
+//@     invariant ((_ is VMap) ret) ((_ is VList) outs)
+//@     invariant (forall ((j String)) (=> (select visited j) (= (select (mc ret) j) (stripF (select (mc obj) j)))))
+//@     invariant (forall ((j String)) (=> (not (select visited j)) (= (select (mc ret) j) VAbsent)))
+//@     invariant (= (app (ls outs) (selK (mc obj) rest)) (app (ls outs@loop) (selK (mc obj) (sortedKeys (mc obj)))))
+//@     invariant (= (outBadK (mc obj) rest true) (outBadK (mc obj) (sortedKeys (mc obj)) true))
+//
+//@ func findOutputsList(obj) (res, outs, err)
+//@   uses appNil, snocApp, appAssoc, dropMarkersRank
+//@   ensures (= (isErr err) (outBad obj true))
+//@   ensures (=> (not (isErr err)) (= res (stripF obj)))                           [C11]
+//@   ensures (=> (not (isErr err)) (= outs (VList (selF obj))))                    [C11]
+//@   decreases (rank obj) 0
+//@   loop 1
+//@     invariant ((_ is VList) ret) ((_ is VList) outs)
+//@     invariant (= (app (ls ret) (stripL rest)) (stripL (ls obj)))
+//@     invariant (= (app (ls outs) (selL rest)) (selL (ls obj)))
+//@     invariant (= (outBadL rest true) (outBadL (ls obj) true))
+//
+//@ func filterOutput(obj) (res, err)
+//@   ensures (= (isErr err) (outBad obj false))
+//@   ensures (=> (not (isErr err)) (= res (hideF obj)))                            [C11] [C06]
+//@   decreases (rank obj) 1
+//
+//@ func filterOutputMap(obj) (res, err)
+//@   requires ((_ is VMap) obj)
+//@   ensures (= (isErr err) (outBad obj false))
+//@   ensures (=> (not (isErr err)) (= res (hideF obj)))                            [C11]
+//@   decreases (rank obj) 0
+//@   call filterMap#1
+//@     invariant ((_ is VMap) ret)
+//@     invariant (forall ((j String)) (=> (select visited j) (= (select (mc ret) j)
+//@                  (ite (= (hideF (select (mc m) j)) VNil) VAbsent (hideF (select (mc m) j))))))
+//@     invariant (forall ((j String)) (=> (not (select visited j)) (= (select (mc ret) j) VAbsent)))
+//@     invariant (= (outBadK (mc m) rest false) (outBadK (mc m) (sortedKeys (mc m)) false))
+//
+//@ func filterOutputList(obj) (res, err)
+//@   uses appNil, snocApp, noMarkerNoExtra
+//@   ensures (= (isErr err) (outBad obj false))
+//@   ensures (=> (not (isErr err)) (= res (hideF obj)))                            [C11]
+//@   decreases (rank obj) 0
+//@   call filterList#1
+//@     invariant ((_ is VList) ret)
+//@     invariant (= (app (ls ret) (hideL rest)) (hideL (ls l)))
+//@     invariant (= (outBadL rest false) (outBadL (ls l) false))
+
+// ------------------------------------------------------------------------------------------------- finalize.go
+
+//@ func finalizeString(obj) (res)
+//@   ensures (= res (unesc obj))                                                   [C06]
+//
+//@ func finalizeOutput(obj) (res)
+//@   ensures (= res (finF obj))                                                    [C06] [C09]
+//@   decreases (rank obj) 1
+//
+//@ func finalizeList(obj) (res)
+//@   uses lsetLen, lrepeatLen, ltakeSet, ltakeAll, finLsnoc, appLen
+//@   ensures (= res (finF obj))                                                    [C06]
+//@   decreases (rank obj) 0
+//@   loop 1
+//@     invariant ((_ is VList) newList)
+//@     invariant (= (llen (ls newList)) (llen (ls obj)))
+//@     invariant (= (ltake (ls newList) idx) (finL done))
+//
+//@ func finalizeMap(obj) (res)
+//@   requires ((_ is VMap) obj)
+//@   requires (keysInj (mc obj))                                                   [C09]
+//@   ensures (= res (finF obj))                                                    [C06] [C09]
+//@   decreases (rank obj) 0
+//@   loop 1
+//@     invariant ((_ is VMap) newObj)
+//@     invariant (forall ((j String)) (=> (select visited j) (= (select (mc newObj) (unesc j)) (finF (select (mc obj) j)))))
+//@     invariant (forall ((k2 String)) (=> (not (= (select (mc newObj) k2) VAbsent))
+//@                  (exists ((j String)) (and (select visited j) (= (unesc j) k2)))))
+
+// ------------------------------------------------------------------------------------------------- parser.go (output side)
+
+//@ func Parser.outputDocument(p, doc) (res, err)
+//@   uses appNil, snocApp, appAssoc
+//@   ensures (=> (not (isErr err))
+//@              (exists ((h (Array Int Val)) (ds RLst))
+//@                 (and (not (candsBad h ds)) (not (emitErr (candsL h ds))) (= res (VList (emitF (candsL h ds)))))))   [C11] [C07]
+//@   loop 1
+//@     invariant ((_ is VList) outs)
+//@     invariant (= (app (ls outs) (candsL (heap Document.Data) rest)) (candsL (heap Document.Data) docs))
+//@     invariant (= (candsBad (heap Document.Data) rest) (candsBad (heap Document.Data) docs))
+//@   call filterList#1
+//@     invariant ((_ is VList) ret)
+//@     invariant (= (app (ls ret) (emitF rest)) (emitF (ls l)))
+//@     invariant (= (emitErr rest) (emitErr (ls l)))
+//@   at call finalizeOutput#1
+//@     assert (noMarker v2)                                                        [C07]
+//@     assert (= v2 (hideF v))                                                     [C11]
+
+// ------------------------------------------------------------------------------------------------- repeat.go, evalcontext.go, document.go (shape contracts)
+
+//@ func repeatDoc(doc, ec) (docs, ecs, err)
+//@   ensures (=> (not (isErr err)) (= (rllen docs) (rllen ecs)))
+//
+//@ func repeatDocMap(doc, ec, data) (docs, ecs, err)
+//@   ensures (=> (not (isErr err)) (= (rllen docs) (rllen ecs)))
+//
+//@ func repeatDocList(doc, ec, data) (docs, ecs, err)
+//@   ensures (=> (not (isErr err)) (= (rllen docs) (rllen ecs)))
+//
+//@ func repeatDocGen(doc, ec, v) (docs, ecs, err)
+//@   ensures (=> (not (isErr err)) (= (rllen docs) (rllen ecs)))
+//
+//@ func repeatDocGenFromInt(doc, ec, name, count) (docs, ecs, err)
+//@   uses rappLen
+//@   ensures (=> (not (isErr err)) (= (rllen docs) (rllen ecs)))
+//@   ensures (=> (not (isErr err)) (= (rllen docs) (ite (< count 0) 0 count)))            [C12]
+//@   loop 1
+//@     invariant (= (rllen docs) (rllen ecs))
+//@     invariant (and (<= 0 i) (= (rllen docs) i) (or (<= i count) (= i 0)))
+//
+//@ func repeatDocGenFromMap(doc, ec, rs) (docs, ecs, err)
+//@   uses rappLen
+//@   ensures (=> (not (isErr err)) (= (rllen docs) (rllen ecs)))
+//@   loop 2
+//@     invariant (= (rllen docs) (rllen ecs))
+//@   loop 3
+//@     invariant (= (rllen tmpDocs) (rllen tmpECs))
+
+// ------------------------------------------------------------------------------------------------- yaml.go (shape contracts)
+
+//@ func yamlMerge(dst, src, node) (err)
+//@   mutates dst
+//@   requires ((_ is VMap) dst)
+//@   ensures ((_ is VMap) dst@post)
+//@   loop 1
+//@     invariant ((_ is VMap) dst)
+//@   loop 2
+//@     invariant ((_ is VMap) dst)
+//@   loop 3
+//@     invariant ((_ is VMap) dst)
+
+//@ func Document.Process(d, mergeFromDocs) (docs, err)
+//@   uses rappLen
+
+// ------------------------------------------------------------------------------------------------- process1.go (termination: depth guard)
+// measure: (1002 - depth, rank of the function inside one depth level); process1 increments depth and refuses depth > 1000
+
+//@ func process1(obj, mergeFrom, mergeFromDocs, depth) (res, err)
+//@   decreases (- 1002 depth) 0
+//@ func process1Map(obj, mergeFrom, mergeFromDocs, depth) (res, err)
+//@   requires ((_ is VMap) obj)
+//@   decreases (- 1002 depth) 5
+//@ func process1MapMerge(obj, mergeFrom, mergeFromDocs, v, depth) (res, err)
+//@   requires ((_ is VMap) obj)
+//@   decreases (- 1002 depth) 1
+//@ func process1MapReplace(obj, mergeFrom, mergeFromDocs, v, depth) (res, err)
+//@   decreases (- 1002 depth) 1
+//@ func process1List(obj, mergeFrom, mergeFromDocs, depth) (res, err)
+//@   decreases (- 1002 depth) 5
+//@ func process1ListReplace(obj, mergeFrom, mergeFromDocs, m, depth) (res, err)
+//@   decreases (- 1002 depth) 1
+//@ func process1String(obj, mergeFrom, mergeFromDocs, depth) (res, err)
+//@   decreases (- 1002 depth) 5
+//@ func process1StringMerge(obj, mergeFrom, mergeFromDocs, depth) (res, err)
+//@   decreases (- 1002 depth) 1
+//@ func process1StringReplace(obj, mergeFrom, mergeFromDocs, depth) (res, err)
+//@   decreases (- 1002 depth) 1
+
+// ------------------------------------------------------------------------------------------------- process2.go (termination: depth guard)
+
+//@ func process2(obj, mergeFrom, mergeFromDocs, ec, depth) (res, err)
+//@   decreases (- 1002 depth) 0
+//@ func process2Map(obj, mergeFrom, mergeFromDocs, ec, depth) (res, err)
+//@   decreases (- 1002 depth) 9
+//@ func process2MapValue(obj, mergeFrom, mergeFromDocs, ec, v, depth) (res, err)
+//@   decreases (- 1002 depth) 1
+//@ func process2Encode(obj, mergeFrom, mergeFromDocs, ec, v, depth) (res, err)
+//@   decreases (- 1002 depth) 1
+//@ func process2Decode(obj, mergeFrom, mergeFromDocs, ec, v, depth) (res, err)
+//@   decreases (- 1002 depth) 5
+//@ func process2DecodeString(obj, mergeFrom, mergeFromDocs, ec, v, depth) (res, err)
+//@   decreases (- 1002 depth) 4
+//@ func process2DecodeStringMap(obj, mergeFrom, mergeFromDocs, ec, v, depth) (res, err)
+//@   decreases (- 1002 depth) 3
+//@ func process2List(obj, mergeFrom, mergeFromDocs, ec, depth) (res, err)
+//@   decreases (- 1002 depth) 9
+//@ func process2RepeatObjMap(v, mergeFrom, mergeFromDocs, ec, k, r, depth) (res, err)
+//@   decreases (- 1002 depth) 2
+//@ func process2RepeatObjList(v, mergeFrom, mergeFromDocs, ec, r, depth) (res, err)
+//@   decreases (- 1002 depth) 2
+
+// ------------------------------------------------------------------------------------------------- get.go (termination)
+
+//@ func getPath(obj, parts) (res, err)
+//@   decreases (sllen parts)
+
+//@ func get(doc, docs, m) (res, err)
+//@   decreases (rank m) 1
+//@ func getCross(docs, conf) (res, err)
+//@   decreases (rank conf) 0
